@@ -1,26 +1,60 @@
 (* C02 — an 'invalid' verdict comes with a genuine countermodel.
-   PARTIAL: the unbounded theorem covers the propositional fragment of every
-   logic (any number of letters, any size, any legal run).  For modal and
-   first-order open branches the property is decided per reported countermodel
-   by evaluating the exported model with Sem/Model.v eval inside Coq
-   (tools/c02.py); the Hintikka induction for those fragments is not proved. *)
+   Two theorems.
+   (1) C02_saturated_branch: for every logic L whose obligations complete_okF
+   are discharged (the "if" direction of every rule schema over all value pairs /
+   all 16 value subsets, closure completeness over all literal sets, per-logic
+   weights under which every rule decreases), the model read off ANY branch b
+   that is open and saturated - branch_okb: no rule instance the branch calls
+   for is missing (unsaturated = []), no closure pattern matches, sentences closed,
+   interpreted by L and not re-binding variables - satisfies EVERY node of b, with
+   modal operators over the branch's access pairs and quantifiers over the
+   branch's constants; if b extends the trunk the model is a countermodel; the
+   access relation has the frame property the logic's frame rules saturate for.
+   Any number of worlds, constants, nodes.
+   Not claimed: normality of identity (the read-off interprets = as an ordinary
+   predicate, as the library does), total denotation of constants absent from the
+   branch, the sink world of serial frames; logics for which no decreasing weights
+   exist (alt-Q / GO / MH / NH rewriting rules) have no complete_okF instance.
+   (2) C02_countermodel_partial: the same for the propositional fragment stated
+   on certificates (every legal run), for all 57 logics. *)
 From Coq Require Import List Bool.
-From PT Require Import Sem.Values Sem.Syntax Sem.Closure Tab.Node Tab.PropTab Tab.PropSound
-  Tab.PropComplete Tab.PropDecide.
+From PT Require Tab.PropDecide Tab.PropComplete.
+From PT Require Import Sem.Values Sem.Syntax Sem.Closure Sem.Model Tab.Node Tab.PropTab Tab.PropSound
+  Tab.FullTab Tab.FullSound Tab.Saturate Tab.FullComplete.
 Import ListNotations.
 
-Theorem C02_countermodel_partial : forall L dv t prems concl, decide_ok L dv ->
-  check L t (trunk (pl_hd L) 0 prems concl) [] = true -> all_closed t = false ->
-  forall bl, In bl (open_leaves t (trunk (pl_hd L) 0 prems concl)) ->
-    let v := read_off (pl_hd L) dv bl 0 in
-    val_ok (pl_t L) v /\ countermodel (pl_t L) dv v prems concl /\
-    bsat (pl_t L) (read_ev (pl_t L) (pl_hd L) dv bl) bl.
-Proof. exact decide_complete. Qed.
-Print Assumptions C02_countermodel_partial.
+Theorem C02_saturated_branch : forall L dv ws b tk, complete_okF L dv ws -> branch_okb L b tk = true ->
+  forall n, In n b -> isat (fl_S L) (bmodel L dv b) idw n.
+Proof. exact hintikka_b. Qed.
+Print Assumptions C02_saturated_branch.
 
-(* the value the model builder reads off an open literal set satisfies it (C05's read-off) *)
-Theorem C02_read_off_satisfies_literals : forall t hd ks dv bl,
-  closure_complete t hd ks = None -> branch_closed ks bl = false -> des_ok hd bl ->
-  forall n, In n bl -> lit_node n = true -> nsat_node t (read_ev t hd dv bl) n.
-Proof. exact read_ev_literals. Qed.
-Print Assumptions C02_read_off_satisfies_literals.
+Theorem C02_saturated_branch_countermodel : forall L dv ws b tk,
+  complete_okF L dv ws -> branch_ok L b tk -> forall prems concl,
+  (forall n, In n (trunk (fl_hd L) 0 prems concl) -> In n b) ->
+  (fl_hd L = false -> neg_flips_t (s_t (fl_S L)) = true) ->
+  (forall p, In p prems -> t_des (s_t (fl_S L)) (eval (fl_S L) (bmodel L dv b) 0 env0 p) = true) /\
+  t_des (s_t (fl_S L)) (eval (fl_S L) (bmodel L dv b) 0 env0 concl) = false.
+Proof. exact hintikka_countermodel. Qed.
+Print Assumptions C02_saturated_branch_countermodel.
+
+Theorem C02_branch_model_frame : forall L dv b tk, branch_ok L b tk ->
+  (fl_refl L = true -> forall u, In u (m_worlds (bmodel L dv b)) -> m_R (bmodel L dv b) u u = true) /\
+  (fl_sym L = true -> forall u v, m_R (bmodel L dv b) u v = true -> m_R (bmodel L dv b) v u = true) /\
+  (fl_trans L = true -> forall u v z, m_R (bmodel L dv b) u v = true -> m_R (bmodel L dv b) v z = true ->
+                                      m_R (bmodel L dv b) u z = true).
+Proof.
+  intros L dv b tk BO. split; [|split].
+  - exact (bmodel_reflexive L dv b tk BO).
+  - exact (bmodel_symmetric L dv b tk BO).
+  - exact (bmodel_transitive L dv b tk BO).
+Qed.
+Print Assumptions C02_branch_model_frame.
+
+Theorem C02_countermodel_partial : forall L dv t prems concl, PropDecide.decide_ok L dv ->
+  check L t (trunk (pl_hd L) 0 prems concl) [] = true -> all_closed t = false ->
+  forall bl, In bl (PropComplete.open_leaves t (trunk (pl_hd L) 0 prems concl)) ->
+    let v := PropDecide.read_off (pl_hd L) dv bl 0 in
+    PropDecide.val_ok (pl_t L) v /\ PropDecide.countermodel (pl_t L) dv v prems concl /\
+    bsat (pl_t L) (PropDecide.read_ev (pl_t L) (pl_hd L) dv bl) bl.
+Proof. exact PropDecide.decide_complete. Qed.
+Print Assumptions C02_countermodel_partial.
